@@ -26,6 +26,38 @@ TRUSTED = ["the PCBO constraint methods (C02)", "puso_to_pubo / pubo_to_puso (C0
 RELS = C02.RELS
 
 
+def is_seeded(fn, e, selfn, at, depth=4):
+    """Does expression e (the receiver of the boolean constraint call / the helper whose counter is handed back) denote
+    a PCBO seeded with self's ancilla counter: `_empty_pcbo(self)`, possibly through chained calls that return their
+    receiver and through local names, or a `PCBO()` local whose `_ancilla` was set from self's counter before `at`."""
+    while isinstance(e, ast.Call) and isinstance(e.func, ast.Attribute):
+        e = e.func.value
+    if isinstance(e, ast.Call) and call_name(e) == '_empty_pcbo' and e.args and is_name(e.args[0], selfn):
+        return True
+    if isinstance(e, ast.Name) and depth > 0:
+        g = cfg_of(fn.node)
+        seeds = [n for n in g.stmts() if isinstance(n, ast.Assign) and any(src(t) == '%s._ancilla' % e.id for t in n.targets)
+                 and src(n.value) in ('%s._ancilla' % selfn, '%s.num_ancillas' % selfn)]
+        ds = [(s_, x) for s_, x in assignments_to(fn.node, e.id) if isinstance(x, ast.AST)]
+        if not ds:
+            return False
+        ok = True
+        for s_, x in ds:
+            r = x
+            while isinstance(r, ast.Call) and isinstance(r.func, ast.Attribute):
+                r = r.func.value
+            if isinstance(r, ast.Name) and r.id == e.id:
+                continue                      # h = h.add_constraint_...(...): same object
+            if is_seeded(fn, x, selfn, s_, depth - 1):
+                continue
+            fresh = isinstance(r, ast.Call) and src(r.func).split('.')[-1] == 'PCBO' and not r.args
+            if fresh and seeds and at is not None and g.dominates(seeds, at):
+                continue
+            ok = False
+        return ok
+    return False
+
+
 def counter_handback_source(ctx, rid):
     """Whatever is written back into self._ancilla by a PCSO constraint method is the counter of a helper that was
     seeded with self's counter (`_empty_pcbo(self)`): a fresh PCBO() would hand back a counter that restarts at 0."""
@@ -46,15 +78,7 @@ def counter_handback_source(ctx, rid):
                     while isinstance(e, ast.Call) and isinstance(e.func, ast.Attribute):
                         e = e.func.value
                     return e
-                def seeded(e, depth=4):
-                    r = root_call(e)
-                    if isinstance(r, ast.Call) and call_name(r) == '_empty_pcbo' and r.args and is_name(r.args[0], selfn):
-                        return True
-                    if isinstance(r, ast.Name) and depth > 0:
-                        ds = [x for s_, x in assignments_to(fn.node, r.id) if isinstance(x, ast.AST)]
-                        return bool(ds) and all(seeded(x, depth - 1) for x in ds)
-                    return False
-                ok = bool(defs) and all(seeded(d) for d in defs)
+                ok = is_seeded(fn, v.value, selfn, n)
                 why = "helper `%s` is not built on _empty_pcbo(%s): its counter restarts at 0 and is written back over the " \
                       "model's counter - ancilla names already in the model are handed out again" % (hv, selfn)
             ctx.inst(rid, fn, n, ok, "counter handed back from the helper seeded with the model's counter" if ok else why)
@@ -107,10 +131,7 @@ def rules(ctx):
                  % (src(a0) if a0 is not None else '', hp))
         # receiver originates from _empty_pcbo(self)
         rv = c.func.value
-        seeded = isinstance(rv, ast.Call) and call_name(rv) == '_empty_pcbo' and rv.args and is_name(rv.args[0], selfn)
-        if isinstance(rv, ast.Name):
-            seeded = any(isinstance(v, ast.Call) and call_name(v) == '_empty_pcbo' and v.args and is_name(v.args[0], selfn)
-                         for s, v in assignments_to(fn.node, rv.id) if isinstance(v, ast.AST))
+        seeded = is_seeded(fn, rv, selfn, enclosing_stmt(c))
         ctx.inst('R03.2', fn, c, seeded,
                  "helper comes from _empty_pcbo(self)" if seeded else
                  "the boolean constraint is built on `%s`, not on a helper seeded by _empty_pcbo(self): its "
@@ -168,23 +189,30 @@ def rules(ctx):
                  "returns self", nontrivial=False)
 
     # ---------------------------------------------------------------- R03.2
-    ep = P.func('_pcso._empty_pcbo')
-    prm = ep.params[0]
-    g = cfg_of(ep.node)
-    rets = [n for n in g.stmts() if isinstance(n, ast.Return)]
-    seeds = [n for n in g.stmts() if isinstance(n, ast.Assign) and any(
-        isinstance(t, ast.Attribute) and t.attr == '_ancilla' for t in n.targets)]
-    ok = bool(rets) and bool(seeds)
-    for r in rets:
-        rv = src(r.value)
-        s_ok = [s for s in seeds if src(s.targets[0]) == '%s._ancilla' % rv and
-                src(s.value) in ('%s._ancilla' % prm, '%s.num_ancillas' % prm)]
-        ok = ok and bool(s_ok) and g.dominates(s_ok, r)
-        ts = R.infer(r.value, ep, None)
-        ok = ok and ts == {'PCBO'}
-    ctx.inst('R03.2', ep, seeds[0] if seeds else 'h._ancilla = pcso._ancilla', ok,
-             "returned PCBO carries the model's counter" if ok else
-             "_empty_pcbo does not copy the model's ancilla counter into the PCBO it returns")
+    if not P.has_func('_pcso._empty_pcbo'):
+        # inlined into the constraint methods (PCBO() + seeding assignment, accepted by is_seeded above)
+        ctx.inst('R03.2', ('qubovert/_pcso.py', ''), '_empty_pcbo', True, "the seeding helper is written out in the methods",
+                 nontrivial=False)
+        ep = None
+    else:
+        ep = P.func('_pcso._empty_pcbo')
+    prm = ep.params[0] if ep else None
+    if ep is not None:
+        g = cfg_of(ep.node)
+        rets = [n for n in g.stmts() if isinstance(n, ast.Return)]
+        seeds = [n for n in g.stmts() if isinstance(n, ast.Assign) and any(
+            isinstance(t, ast.Attribute) and t.attr == '_ancilla' for t in n.targets)]
+        ok = bool(rets) and bool(seeds)
+        for r in rets:
+            rv = src(r.value)
+            s_ok = [s for s in seeds if src(s.targets[0]) == '%s._ancilla' % rv and
+                    src(s.value) in ('%s._ancilla' % prm, '%s.num_ancillas' % prm)]
+            ok = ok and bool(s_ok) and g.dominates(s_ok, r)
+            ts = R.infer(r.value, ep, None)
+            ok = ok and ts == {'PCBO'}
+        ctx.inst('R03.2', ep, seeds[0] if seeds else 'h._ancilla = pcso._ancilla', ok,
+                 "returned PCBO carries the model's counter" if ok else
+                 "_empty_pcbo does not copy the model's ancilla counter into the PCBO it returns")
 
     # counter never reset on a live model (shared with C14)
     from .C14 import reset_reachability, refresh_order
@@ -198,6 +226,8 @@ def rules(ctx):
     ctx.rule('R03.7', "the weight enters the boolean penalties only linearly (premise: the spin methods delegate to them)", floor=4)
     from .C16 import weight_linearity
     weight_linearity(ctx, 'R03.7')
+    C02.merge_discipline(ctx, 'R03.7', list(C02.rel_methods(P, 'PCBO').values()) + P.opt_funcs(
+        ['_pcbo._special_constraints_eq_zero', '_pcbo._special_constraints_le_zero']))
 
     # ---------------------------------------------------------------- R03.5
     table = ['is_solution_valid', 'remove_ancilla_from_solution', 'subs', '__round__', 'update',
@@ -230,6 +260,10 @@ def rules(ctx):
             rets = [n for n in walk_no_nested(strip_docstring(m.node.body)) if isinstance(n, ast.Return)]
             if name not in ('__init__', 'update', '_append_constraint'):
                 ok = ok and any(r.value is c for r in rets)
+            else:
+                # the delegation happens on every path (not under a condition on the arguments)
+                gm = cfg_of(m.node)
+                ok = ok and gm.must_pass_to_exit(ENTRY, {enclosing_stmt(c)})
         ctx.inst('R03.5', m, 'def %s' % name, ok,
                  "delegates to PCBO.%s(self, ...)" % name if ok else
                  "PCSO.%s does not delegate to PCBO.%s with self" % (name, name))
